@@ -50,7 +50,9 @@ def rand_ops(rng, c, n):
             ops.append(("getitem", rng.randrange(len(ins))))
         elif r < 0.5:
             form = rng.choice(["none", "tick", "ticks", "time", "times", "neg", "rev"])
-            ops.append(("nps", rng.randrange(len(ins)), rng.randrange(len(dif)), form, rng.randint(0, last + 5), rng.randint(0, last + 400)))
+            pres = [(ins.index(i), dif.index(d)) for i, dd in c.instrument_tracks.items() for d in dd]
+            i_, d_ = rng.choice(pres) if pres and rng.random() < 0.6 else (rng.randrange(len(ins)), rng.randrange(len(dif)))
+            ops.append(("nps", i_, d_, form, rng.randint(0, last + 5), rng.randint(0, last + 400)))
         elif r < 0.6:
             tk = rng.randint(-2, last + 500)
             # the same tick asked several ways in a row: a hint that must be refused, no hint, the hint again
@@ -180,7 +182,10 @@ def run_case(text, ops):
     for k, op in enumerate(ops):
         r = apply(c, twin, op)
         details.append(_detail[0])
-        obs = observation(c)
+        try:
+            obs = observation(c)
+        except Exception as ex:  # noqa: BLE001  the chart can no longer even be observed: it was changed beyond its own types
+            obs = f"UNOBSERVABLE {type(ex).__name__}: {ex}|K ?|R ?"
         outs.append(r)
         maps.append(obs.rsplit("|K ", 1)[1].split("|R ")[0])
         if problem is None:
@@ -215,6 +220,14 @@ def slice(ctx: fw.Ctx) -> fw.Outcome:
             diffs = rng.sample(range(4), min(4, len(src.tracks)))
             for tr, d in zip(src.tracks, diffs):
                 tr.inst, tr.diff = inst, d
+        if rng.random() < 0.3:
+            # a left-over section: star-power phrases and track events but not a single note (rate queries on it fail)
+            free = [(i, d) for i in range(10) for d in range(4) if (i, d) not in {(t.inst, t.diff) for t in src.tracks}]
+            i_, d_ = rng.choice(free)
+            src.tracks.append(gen.TrackSrc(i_, d_, [], [(rng.randint(0, 500), rng.randint(0, 50)) for _ in range(rng.randint(1, 3))],
+                                           [(rng.randint(0, 500), rng.choice(["solo", "soloend", "x"])) for _ in range(rng.randint(1, 3))]))
+            src.tracks[-1].phrases.sort()
+            src.tracks[-1].tevents.sort()
         if rng.random() < 0.35:
             # a chart with a very late event (ticks of eight and more digits), after the ordinary ones
             late = rng.randint(10**7, 10**9)
